@@ -35,7 +35,7 @@ def run_one(m,wt):
         if p.returncode!=0:
             print(f"BROKEN  {m['patch']}: patch does not apply: {p.stderr.strip()[:200]}"); return 1
         env=dict(os.environ, VERIF_OUT=tempfile.mkdtemp(prefix='govc-selftest-out-'))
-        r=subprocess.run([f'{V}/bin/govc','check','-prop',m['property'],'-repo',wt,'-no-evidence'],capture_output=True,text=True,cwd=V,env=env)
+        r=subprocess.run([f'{V}/bin/govc','check','-prop',m['property'],'-repo',wt,'-no-evidence'],capture_output=True,text=True,errors='replace',cwd=V,env=env)
         shutil.rmtree(env['VERIF_OUT'],ignore_errors=True)
         out=r.stdout
         if m['expect']=='fail':
